@@ -165,3 +165,15 @@ Proof.
         ring. }
     rewrite <- (map_map snd (fun a : Qc => a)), map_id, map_snd_combine by exact Hlen. reflexivity.
 Qed.
+
+(** * Example objects for the non-vacuity checks of properties/C02.v
+    (model [C01_ex_uni] of LikelihoodProofs.v) *)
+Definition C02_ex_diag : diagnosis :=
+  [("CT", [("II", Some IInvolved); ("III", Some IHealthy)]); ("path", [("II", None); ("III", Some IInvolved)])]%string.
+Definition C02_ex_prior : vec :=
+  match state_dist C01_ex_uni "late" true with inr sd => sd | inl _ => [] end.
+Definition C02_ex_post : vec :=
+  match posterior_of C01_ex_uni C02_ex_prior (Some C02_ex_diag) with inr (Some p) => p | _ => [] end.
+(** LNL II healthy / microscopic / macroscopic: a partition of the states *)
+Definition C02_ex_invs : list pattern :=
+  [[("II", Some IHealthy)]; [("II", Some IMicro)]; [("II", Some IMacro)]]%string.
